@@ -1,4 +1,5 @@
-/- What the statement compilers `Parser::{emit_return, return_statement, throw_statement, try_statement}` of compiler.rs EMIT, proved of
+/- What the statement compilers `Parser::{emit_return, return_statement, throw_statement, try_statement, break_statement, continue_statement,
+while_statement, if_statement}` of compiler.rs EMIT, proved of
 their bodies as translated on every run (Yarel/Gen/Fns.lean).  A statement compiler calls back into the parser (`expression`, `block`,
 `consume`, ...) and into the emitter; the translation records every such call, in order, with its arguments (`Rs.Eff`), and takes what the
 calls answer as inputs.  The theorems pin the ORDER and the ARGUMENTS of everything emitted around the recursive calls - the skeleton the
@@ -12,7 +13,11 @@ bytecode verifier of C04 and the handler mechanics of C08 rely on:
   directly after it - before the catch and the finally block (`try_flag_brackets_the_try_block`);
 * `emit_return_skeleton`, `return_statement_skeleton`: a `return` inside a try block emits `JumpFinally` before `Return`, a constructor
   returns its receiver, a bare `return` goes through `emit_return`;
-* `throw_statement_skeleton`.
+* `throw_statement_skeleton`;
+* `break_statement_skeleton`, `continue_statement_skeleton`, `break_discards_before_jumping`: the locals of the scopes inside the loop are
+  discarded down to the depth the loop was entered at before the jump, the jump is registered with / aimed at the innermost loop;
+* `while_statement_skeleton`, `if_statement_skeleton`, `condition_value_popped_on_both_sides`: where the backward jump goes, where the
+  forward jumps are patched, that the condition value is popped on both sides of the test (the heights the verifier of C04 computes).
 -/
 import Yarel.Gen.Fns
 import Yarel.Props.FnsTie.Base
@@ -75,12 +80,61 @@ theorem try_statement_no_clause (inTry0 : Bool) (c1 c3 c10 : List (BitVec 8)) (i
   have hadd : Rs.iadd .usize (c1.length : Int) 2 = .ok ((c1.length : Int) + 2) := iadd_usize_ok _ _ (by omega) hlen
   cases inTry44 <;> simp [Rs.len, hadd]
 
+/-- `break;` -/
+theorem break_statement_skeleton (header : Option (Int × Int)) (bp0 : Int) (p2 : Except Fns.CompilerError Unit) (bp : Int)
+    (p3 : Except Fns.CompilerError Unit) :
+    Fns.break_statement header bp0 p2 bp p3
+      = .ok ((), breakSkeleton header bp (match header with | some _ => p2 | none => p3)) := by
+  unfold Fns.break_statement breakSkeleton
+  rcases header with _ | ⟨s, d⟩
+  · cases p3 <;> simp [call0, emitJump, consume, reportErr]
+  · cases p2 <;> simp [call0, emitJump, consume, reportErr, scopeEndTo]
+
+/-- A `break` inside a loop discards the inner scopes' locals before it jumps (the jump is what is registered with the loop). -/
+theorem break_discards_before_jumping (start depth bp : Int) (p : Except Fns.CompilerError Unit) :
+    (breakSkeleton (some (start, depth)) bp p).take 4
+      = [call0 "self.compiler().current_loop_header", scopeEndTo depth, emitJump .Jump, ⟨"self.compiler().push_break", [.i bp]⟩] := by
+  simp [breakSkeleton]
+
+/-- `continue;` -/
+theorem continue_statement_skeleton (header : Option (Int × Int)) :
+    Fns.continue_statement header = .ok ((), continueSkeleton header) := by
+  unfold Fns.continue_statement continueSkeleton
+  rcases header with _ | ⟨s, d⟩ <;> simp [call0, consume, scopeEndTo]
+
+/-- `while cond { body }` -/
+theorem while_statement_skeleton (code : List (BitVec 8)) (exitJump : Int) (popped : Except Fns.CompilerError Unit) :
+    Fns.while_statement code exitJump popped = .ok ((), whileSkeleton (code.length : Int) exitJump popped) := by
+  unfold Fns.while_statement whileSkeleton
+  cases popped <;> simp [Rs.len, call0, emitJump, emitOp, opByte, consume, patchJump, reportErr]
+
+/-- `if cond { } else ...` -/
+theorem if_statement_skeleton (thenJump elseJump : Int) (haveElse unused startsOk : Bool) :
+    Fns.if_statement thenJump elseJump haveElse unused startsOk = .ok ((), ifSkeleton thenJump elseJump haveElse startsOk) := by
+  unfold Fns.if_statement ifSkeleton
+  cases haveElse <;> cases startsOk <;> simp [call0, emitJump, emitOp, opByte, consume, patchJump, matchTok]
+
+/-- Every way through an `if` or `while` test pops the condition value exactly once on the fall-through side (directly after the
+conditional jump) and once on the jumped-to side (directly after that jump is patched): the operand stack is balanced on both. -/
+theorem condition_value_popped_on_both_sides (a b : Int) (c d : Bool) (p : Except Fns.CompilerError Unit) :
+    ((ifSkeleton a b c d).drop 1).take 2 = [emitJump .JumpIfFalse, emitOp .Pop]
+      ∧ ((ifSkeleton a b c d).drop 8).take 2 = [patchJump a, emitOp .Pop]
+      ∧ ((whileSkeleton a b p).drop 2).take 2 = [emitJump .JumpIfFalse, emitOp .Pop]
+      ∧ ((whileSkeleton a b p).drop 9).take 2 = [patchJump b, emitOp .Pop] := by
+  simp [ifSkeleton, whileSkeleton]
+
 #print axioms emit_return_skeleton
 #print axioms throw_statement_skeleton
 #print axioms return_statement_skeleton
 #print axioms try_statement_skeleton
 #print axioms try_statement_no_clause
 #print axioms try_flag_brackets_the_try_block
+#print axioms break_statement_skeleton
+#print axioms break_discards_before_jumping
+#print axioms continue_statement_skeleton
+#print axioms while_statement_skeleton
+#print axioms if_statement_skeleton
+#print axioms condition_value_popped_on_both_sides
 
 /-- Non-vacuity: the hypotheses of `try_statement_skeleton` are met by a try/catch statement at position 7 of a chunk. -/
 example : ((List.replicate 7 (0 : BitVec 8)).length : Int) + 2 ≤ 18446744073709551615 ∧ (true = true → true = true) ∧ (true = true ∨ false = true) := by
